@@ -283,7 +283,7 @@ def _read_attributes_section(
             annotation = parse_docstring_annotation(annotation, docstring)
         else:
             name = name_with_type
-            with suppress(AttributeError, KeyError, TypeError):
+            with suppress(AttributeError, KeyError, TypeError, ValueError):
                 # Use subscript syntax to fetch annotation from inherited members too.
                 annotation = docstring.parent[name].annotation  # type: ignore[index]
 
